@@ -582,7 +582,7 @@ class ChemicalIndexer(Indexer):
         if self._chemicals is other._chemicals:
             self.data -= other.sum_across_phases()
         else:
-            other_data = other.data
+            other_data = other.sum_across_phases()
             left_index, right_index = index_overlap(self._chemicals, other._chemicals, [*other_data.nonzero_keys()])
             self.data[left_index] -= other_data[right_index]
     
@@ -892,7 +892,7 @@ class MaterialIndexer(Indexer):
                     other_index, = idata.any(0).nonzero()
                     CASs = other.chemicals.CASs
                     self_index = chemicals.indices([CASs[i] for i in other_index])
-                    data[:, self_index] -= idata[:, other_index]
+                    for row, irow in zip(data.rows, idata.rows): row[self_index] -= irow[other_index]
             else:
                 if chemicals is other.chemicals:
                     for phase, idata in zip(other.phases, idata):
